@@ -57,7 +57,9 @@ def run_oracle(mod, rng, budget, tier, must_find=False):
     if not hasattr(mod, 'oracle'):
         return res
     seen = set()
-    cap = {'quick': 120, 'thorough': 900}[tier] * (2 if must_find else 1)
+    cap = {'quick': 120, 'thorough': 900}[tier] * (3 if must_find else 1)
+    if must_find:
+        budget *= 4          # an obligation is already broken: search harder for a concrete failing input
     t0 = time.time()
     import contextlib, io
     sink = io.StringIO()
